@@ -234,6 +234,37 @@ def rechunk_sweep(tier, seed):
                     break
             if time.time() - t0 > budget or len(fails) >= 5:
                 break
+        # random non-nested chunkings of small 2-d / 3-d arrays under a tight graph budget (threshold=1) and a tiny block size
+        # limit: plans with split passes between merge passes
+        def _rand_chunks(n):
+            out, left = [], n
+            while left:
+                c = rnd.randrange(1, min(left, 7) + 1)
+                out.append(c)
+                left -= c
+            return tuple(out)
+
+        nplan = 0
+        for _ in range(1200 if tier == "quick" else 12000):
+            if time.time() - t0 > budget * 2 or len(fails) >= 5:
+                break
+            nd = rnd.choice((2, 2, 3))
+            shape = tuple(rnd.choice((12, 20, 30, 40)) if nd == 2 else rnd.choice((6, 10, 12)) for _ in range(nd))
+            old = tuple(_rand_chunks(n_) for n_ in shape)
+            new = tuple(_rand_chunks(n_) for n_ in shape)
+            bsl = rnd.choice((8, 16, 64, 200, 768))
+            th = rnd.choice((1, 1, 2))
+            cases += 1
+            nplan += 1
+            x = np.arange(int(np.prod(shape))).reshape(shape)
+            try:
+                r = da.from_array(x, chunks=old).rechunk(new, threshold=th, block_size_limit=bsl)
+                ok = r.chunks == new and np.array_equal(r.compute(), x)
+                msg = None if ok else f"result chunks differ from the target or values changed (chunks ok: {r.chunks == new})"
+            except Exception as e:  # noqa
+                msg = f"{type(e).__name__}: {e}"
+            if msg:
+                fails.append(rtc.Failure("rechunk", {"shape": shape, "old": old, "new": new, "threshold": th, "block_size_limit": bsl}, "ensures", "C23-rechunk-exact", msg))
     return {"function": "dask/array/rechunk.py:rechunk/plan_rechunk (real code, NumPy values; bounded only)", "bounded": True,
             "bound": {"1-D": "all pairs of chunkings of length <= 5 (quick) / 6, zero-size source chunks included", "specs": "17 dict/tuple/list targets with None, -1, negative axes and omitted axes x 4 source chunkings, spec object reused", "2-D": f"{len(pairs)} (shape, old, new) x 3 plan settings", "time_budget_s": budget},
             "cases": cases, "distinct_nontrivial": cases, "failures_found": len(fails), "wall_s": round(time.time() - t0, 2),
